@@ -89,7 +89,7 @@ func c07GenText(seed, size int) []byte {
 }
 
 func c07Content(desc string) []byte {
-	if strings.HasPrefix(desc, "b:") || strings.HasPrefix(desc, "c:") || strings.HasPrefix(desc, "h:") {
+	if strings.HasPrefix(desc, "b:") || strings.HasPrefix(desc, "c:") || strings.HasPrefix(desc, "h:") || strings.HasPrefix(desc, "z:") {
 		// the generated text of that seed and size with a head a file reader might treat specially (a UTF-8 byte order
 		// mark, a CR LF) written over its first bytes, or with bytes >= 0x80 (UTF-8 and Latin-1) written into it
 		b := c07Content("t" + desc[1:])
@@ -98,6 +98,10 @@ func c07Content(desc string) []byte {
 			copy(b, "\xef\xbb\xbf")
 		case 'c':
 			copy(b, "\r\n")
+		case 'z': // NUL bytes: an ordinary byte to the engine, "binary" to many tools
+			for i := 3; i < len(b); i += 113 {
+				b[i] = 0
+			}
 		default:
 			for i := 5; i+2 < len(b); i += 97 {
 				copy(b[i:], []string{"\xc3\xa9", "\xe9", "\xe2\x82\xac", "\xff"}[(i/97)%4])
@@ -701,6 +705,8 @@ func init() {
 						kind = "c"
 					case 4:
 						kind = "h"
+					case 5:
+						kind = "z"
 					}
 					st.Counts["engine-content-kind-"+kind]++
 					fl := []string{hx(src), fmt.Sprintf("%s:%d:%d", kind, r.Intn(100000), n)}
